@@ -23,6 +23,7 @@ type Kernel struct {
 	Programs  map[string]func() // argv[0] -> program main
 	Listeners []*ListenSock
 	Events    []KEvent // ground truth for the oracles
+	connSeq   int
 }
 
 type KEvent struct {
@@ -304,9 +305,14 @@ type ListenSock struct {
 	k      *Kernel
 }
 
+// SockBuf is how many bytes a connection end holds for its reader before writes to it block
+// (send + receive buffer of a real socket pair taken together).
+const SockBuf = 64 << 10
+
 type ConnEnd struct {
 	peer      *ConnEnd
 	in        []byte
+	wlock     bool // a Write is in progress: like the fd mutex of a real net.Conn, writes are serialised
 	closed    bool // this end closed
 	ID        int
 	k         *Kernel
@@ -334,16 +340,14 @@ func (k *Kernel) DupFD(f *FD) *FD {
 	return k.cur().addFD(nf, -1)
 }
 
-var connSeq int
-
 // Dial connects a client to the listening socket; the server end waits in the shared accept queue.
 func (k *Kernel) Dial(ls *ListenSock) (*ConnEnd, error) {
 	if ls.Closed || ls.refs <= 0 {
 		return nil, syscall.ECONNREFUSED
 	}
-	connSeq++
-	c := &ConnEnd{k: k, ID: connSeq}
-	s := &ConnEnd{k: k, ID: connSeq}
+	k.connSeq++
+	c := &ConnEnd{k: k, ID: k.connSeq}
+	s := &ConnEnd{k: k, ID: k.connSeq}
 	c.peer, s.peer = s, c
 	ls.queue = append(ls.queue, s)
 	return c, nil
@@ -402,7 +406,32 @@ func (c *ConnEnd) Write(b []byte) (int, error) {
 	if c.peer.closed {
 		return 0, syscall.EPIPE
 	}
-	c.peer.in = append(c.peer.in, b...)
+	// writes on one connection are serialised; a write blocks while the peer's buffer is full
+	Block("conn.write-lock", func() bool { return !c.wlock || c.closed })
+	if c.closed {
+		return 0, fs.ErrClosed
+	}
+	c.wlock = true
+	defer func() { c.wlock = false }()
+	n := 0
+	for n < len(b) {
+		Block("conn.write", func() bool { return len(c.peer.in) < SockBuf || c.peer.closed || c.closed })
+		if Dying() {
+			return n, nil
+		}
+		if c.closed {
+			return n, fs.ErrClosed
+		}
+		if c.peer.closed {
+			return n, syscall.EPIPE
+		}
+		room := SockBuf - len(c.peer.in)
+		if room > len(b)-n {
+			room = len(b) - n
+		}
+		c.peer.in = append(c.peer.in, b[n:n+room]...)
+		n += room
+	}
 	Yield("conn.write")
 	return len(b), nil
 }
